@@ -32,6 +32,7 @@ import (
 	"k8s.io/apimachinery/pkg/types"
 
 	v1 "sigs.k8s.io/karpenter/pkg/apis/v1"
+	"sigs.k8s.io/karpenter/pkg/cloudprovider"
 	"sigs.k8s.io/karpenter/pkg/controllers/disruption"
 	pscheduling "sigs.k8s.io/karpenter/pkg/controllers/provisioning/scheduling"
 	"sigs.k8s.io/karpenter/pkg/operator/options"
@@ -111,7 +112,12 @@ func (cs *caseState) simCtx(mode string) (ctx context.Context, done func()) {
 		return c, func() { wg.Wait(); cancel() }
 	case ctxFault:
 		k := 1 + cs.rng.Intn(40)
-		e.API.SetFaults(&world.Fault{AtCall: k, Kind: "timeout"})
+		f := &world.Fault{AtCall: k, Kind: "timeout"}
+		if cs.rng.Intn(3) == 0 {
+			// directed: the lookup of a PersistentVolumeClaim times out (pod validation / volume topology / volume usage)
+			f = &world.Fault{AtCall: 1 + cs.rng.Intn(3), Kind: "timeout", Match: func(verb, kind, caller string) bool { return kind == "PersistentVolumeClaim" }}
+		}
+		e.API.SetFaults(f)
 		return e.Ctx, func() { e.API.ClearFaults() }
 	}
 	return e.Ctx, func() {}
@@ -407,6 +413,8 @@ func (cs *caseState) oneSimulation(ord int) {
 	r.Count("state_nodes_with_host_port_entries", before.counts.withPorts)
 	r.Count("state_nodes_with_volume_entries", before.counts.withVolumes)
 	r.Count("bookkeeping_entries_digested", before.counts.bookkeeping)
+	r.Count("cached_daemonset_pods_digested", before.counts.dsCached)
+	r.Count("cached_anti_affinity_pods_digested", before.counts.antiAffinity)
 	r.Count("instance_types_digested", before.types)
 	r.Count("offerings_digested", before.offers)
 	r.Sig("%s|%s|cands=%s|ctx=%s|%s", kind, strings.TrimSuffix(sd.Method, "+any"), bucket(len(sr.cands)), mode, strings.SplitN(sr.outcome, "=", 2)[0])
@@ -447,6 +455,34 @@ func (cs *caseState) oneSimulation(ord int) {
 		}
 		byComp[c] = append(byComp[c], ch)
 	}
+	// pod bookkeeping touched by a non-provisioning simulation: refine the key by root cause (classification only, the
+	// verdict is the digest difference). If every touched entry belongs to a pending pod that the provisioner's own
+	// validation rejects (or whose validation lookups hit the injected API timeout), the writer is
+	// Provisioner.GetPendingPods -> Cluster.MarkPodSchedulingDecisions, called on behalf of the simulation.
+	var bk []change
+	var bkComps []string
+	for c, chs := range byComp {
+		if strings.HasPrefix(c, "bookkeeping.") {
+			bk = append(bk, chs...)
+			bkComps = append(bkComps, c)
+		}
+	}
+	if len(bk) > 0 && cs.allRejectedPending(bk, mode == ctxFault) {
+		sort.Strings(bkComps)
+		key := "simulation-marks-scheduling-decision-for-pending-pod-rejected-by-validation"
+		for _, ch := range bk {
+			if ch.Before != "<absent>" {
+				// not just a new stamp: entries written earlier by a provisioning pass were erased / overwritten
+				key = "simulation-erases-provisioner-bookkeeping-of-pending-pod-whose-validation-failed"
+			}
+		}
+		r.Violate(key,
+			fmt.Sprintf("%s changed %s of a pending pod whose provisioner validation fails (Provisioner.Validate rejects it, or its PVC lookup hit the injected API timeout; ctx=%s, outcome=%s)", simKey, strings.Join(bkComps, ", "), mode, sr.outcome), caseDesc(),
+			map[string]any{"changes": bk[:min(len(bk), 6)], "simulation_error": fmt.Sprint(sr.err)})
+		for _, c := range bkComps {
+			delete(byComp, c)
+		}
+	}
 	for c, chs := range byComp {
 		if sd.Method == "StaticDrift" && kind == "ComputeCommands" && (c == "state.NodePoolState" || c == "state.NodePoolState.GetNodeCount()") {
 			// StaticDrift.ComputeCommands runs no scheduling simulation; it reserves node count for its replacements
@@ -457,12 +493,6 @@ func (cs *caseState) oneSimulation(ord int) {
 		key := c + "-changed-by-" + simKey
 		if strings.HasPrefix(c, "bookkeeping.") {
 			key = "pod-" + key
-			// refine by root cause (classification only, the verdict is the digest difference): every changed entry
-			// belongs to a pending pod that the provisioner's own validation rejects => GetPendingPods recorded a
-			// scheduling decision for it on behalf of the simulation
-			if c == "bookkeeping.podsSchedulingAttempted" && cs.allRejectedPending(chs, mode == ctxFault) {
-				key = "simulation-marks-scheduling-decision-for-pending-pod-rejected-by-validation"
-			}
 		}
 		r.Violate(key, fmt.Sprintf("%s changed %s (%d instance(s); ctx=%s, outcome=%s)", simKey, c, len(chs), mode, sr.outcome), caseDesc(),
 			map[string]any{"changes": chs[:min(len(chs), 6)], "simulation_error": fmt.Sprint(sr.err)})
@@ -477,19 +507,25 @@ func (cs *caseState) oneSimulation(ord int) {
 			r.Inc("diagnostic_caller_owned_input_mutated:" + c)
 			if c == "candidate.reschedulablePods" {
 				b, a := sr.candsBefore[ch.Key], ca[ch.Key]
+				class := "other_mutation"
 				switch {
-				case strings.Count(a, `"matchExpressions":[{"key":"pod-template-hash"`) > strings.Count(b, `"matchExpressions":[{"key":"pod-template-hash"`):
-					r.Inc("diagnostic_candidate_pod_labelSelector_grew_by_matchLabelKeys_expression")
+				case strings.Count(a, `{"key":"pod-template-hash","operator":"In"`) > strings.Count(b, `{"key":"pod-template-hash","operator":"In"`):
+					class = "labelSelector_grew_by_matchLabelKeys_expression"
 				case strings.Count(a, `"topologySpreadConstraints"`) > strings.Count(b, `"topologySpreadConstraints"`):
-					r.Inc("diagnostic_candidate_pod_got_default_topology_spread_constraints_injected")
-				default:
-					r.Inc("diagnostic_candidate_pod_other_mutation")
+					class = "got_default_topology_spread_constraints_injected"
+				}
+				if class == "other_mutation" && sameBytes(a, b) {
+					class = "slices_reordered_in_place(preferred_affinity_terms_sorted_by_weight)"
+				}
+				r.Inc("diagnostic_candidate_pod_" + class)
+				if _, ok := r.Extra["diagnostic_sample_candidate_pod_"+class]; !ok {
+					r.Extra["diagnostic_sample_candidate_pod_"+class] = map[string]any{"simulation": sd, "change": ch}
 				}
 			}
 			if !seen[c] {
 				seen[c] = true
-				if cur, _ := r.Extra["diagnostic_input_mutation_sample"].(map[string]any); cur == nil {
-					r.Extra["diagnostic_input_mutation_sample"] = map[string]any{"simulation": sd, "change": ch}
+				if _, ok := r.Extra["diagnostic_sample_"+c]; !ok && c != "candidate.reschedulablePods" {
+					r.Extra["diagnostic_sample_"+c] = map[string]any{"simulation": sd, "change": ch}
 				}
 			}
 		}
@@ -502,17 +538,48 @@ func (cs *caseState) oneSimulation(ord int) {
 	}
 }
 
-// allRejectedPending: every changed entry is a NEW "scheduling attempted" stamp for a pending pod that
-// Provisioner.Validate rejects (the only such path outside Schedule is GetPendingPods -> MarkPodSchedulingDecisions).
+// sameBytes: b is a permutation of a (an in-place re-ordering changes no content).
+func sameBytes(a, b string) bool {
+	if len(a) != len(b) {
+		return false
+	}
+	var n [256]int
+	for i := 0; i < len(a); i++ {
+		n[a[i]]++
+		n[b[i]]--
+	}
+	for _, x := range n {
+		if x != 0 {
+			return false
+		}
+	}
+	return true
+}
+
+// shuffleCatalog permutes, in place, one catalog slice of the provider and the offerings of one of its types.
+func (cs *caseState) shuffleCatalog() {
+	p := cs.d.Env.Provider
+	slices := [][]*cloudprovider.InstanceType{p.Default}
+	for _, name := range common.SortedKeys(p.Catalog) {
+		slices = append(slices, p.Catalog[name])
+	}
+	its := slices[cs.rng.Intn(len(slices))]
+	cs.rng.Shuffle(len(its), func(i, j int) { its[i], its[j] = its[j], its[i] })
+	if len(its) > 0 {
+		ofs := its[cs.rng.Intn(len(its))].Offerings
+		cs.rng.Shuffle(len(ofs), func(i, j int) { ofs[i], ofs[j] = ofs[j], ofs[i] })
+	}
+	cs.r.Inc("provider_catalog_reorderings_between_simulations")
+}
+
+// allRejectedPending: every changed entry is keyed by a pending (unbound) pod that Provisioner.Validate rejects (the
+// only bookkeeping writer outside Schedule that is keyed by such pods is GetPendingPods -> MarkPodSchedulingDecisions).
 func (cs *caseState) allRejectedPending(chs []change, apiFault bool) bool {
 	e := cs.d.Env
 	for _, ch := range chs {
 		i := strings.IndexByte(ch.Key, '|')
 		ns, name, ok := strings.Cut(ch.Key[i+1:], "/")
 		if !ok {
-			return false
-		}
-		if ch.Before != "<absent>" {
 			return false
 		}
 		p := &corev1.Pod{}
@@ -578,6 +645,12 @@ func run(r *mon.Report, tier string, idx int, rng *rand.Rand) {
 	cs := &caseState{r: r, rng: rng, d: d, conc: raceBuild && idx%2 == 0}
 	cs.desc = map[string]any{"options": optDesc, "pools": d.Desc["pools"], "nodes": d.NodeInfo, "catalogs": d.Specs, "decoration": extra, "reserved_offerings": cfg.Scenario.Catalog.Reserved}
 	cs.freshMethods()
+	// the provider's catalog must still be exactly what the generator produced: world building consisted of real
+	// provisioning passes (Provisioner.Schedule + Create), launches and lifecycle reconciles
+	r.Inc("pristine_catalog_checks_after_world_building")
+	for c, what := range pristineCheck(d) {
+		r.Violate(c+"-changed-during-world-building(provisioning-passes)", "after growing the cluster through real provisioning passes the provider's catalog differs from the generated one: "+what, cs.desc, what)
+	}
 	nSims := 1 + rng.Intn(maxSims)
 	for i := 0; i < nSims; i++ {
 		cs.oneSimulation(i)
@@ -593,6 +666,10 @@ func run(r *mon.Report, tier string, idx int, rng *rand.Rand) {
 		case x == 3:
 			addPending(rng, d)
 			_ = e.SyncState()
+		case x == 5 || x == 6:
+			// the provider re-orders its own catalog (its slices are its own): later in-place sorts by a simulation
+			// become visible inside a window even if an earlier pass had already sorted them
+			cs.shuffleCatalog()
 		case x == 4:
 			// one real disruption reconcile: commands may start (taints, deletion marks, replacement NodeClaims)
 			if _, _, panicked, _, _ := d.Round(); !panicked {
